@@ -77,7 +77,7 @@ fn binom_cdf(n: u64, x: u64, p: f64) -> f64 {
     s.min(1.0)
 }
 
-/// Material bias tolerance in units of the advertised RSE (on top of it: 6 sd/sqrt(T) of sampling noise).
+/// Material bias tolerance in units of the advertised RSE (on top of it: 6 max(sd, RSE)/sqrt(T) of sampling noise).
 /// Calibrated on the repaired tree: HLL (HIP, coupon, composite), CPC HIP and theta show |mean| <= 0.03 RSE;
 /// the published ICON polynomial has a real bias of about +0.09 RSE at lg_k = 4.
 const BIAS_MAT: f64 = 0.08;
@@ -114,7 +114,10 @@ fn judge_cell(ctx: &mut Ctx, cfg: &Json, name: &str, n: u64, acc: &Acc, rse_adv:
             ctx.violation("exact regime: estimate != number of distinct items", format!("{} n={}: max |est/n - 1| = {}", name, n, acc.max_abs));
         }
     } else {
-        let bias_tol = bias_mat * rse_adv + 6.0 * sd / t.sqrt();
+        // sampling noise of the mean: the sample sd, but never less than the advertised one -- in cells decided by a
+        // rare event (a sampling sketch that retains an item once in a hundred trials) the sample sd of a few
+        // hundred trials can be 0 while the estimator is perfectly unbiased
+        let bias_tol = bias_mat * rse_adv + 6.0 * sd.max(rse_adv) / t.sqrt();
         if bias_tol > 0.0 {
             ctx.cover_max("worst_bias_over_tolerance", mean.abs() / bias_tol);
             if rse_adv > 0.0 && acc.inexact >= 30 {
@@ -124,7 +127,7 @@ fn judge_cell(ctx: &mut Ctx, cfg: &Json, name: &str, n: u64, acc: &Acc, rse_adv:
         if mean.abs() > bias_tol {
             ctx.violation(
                 "estimate is biased beyond sampling noise",
-                format!("{} n={}: mean relative error {:+.5} over {} trials (sd {:.5}), tolerance {:.5} = {} x advertised RSE {:.5} + 6 sd/sqrt(T)", name, n, mean, acc.t, sd, bias_tol, bias_mat, rse_adv),
+                format!("{} n={}: mean relative error {:+.5} over {} trials (sd {:.5}), tolerance {:.5} = {} x advertised RSE {:.5} + 6 max(sd, RSE)/sqrt(T)", name, n, mean, acc.t, sd, bias_tol, bias_mat, rse_adv),
             );
         }
         // When almost every trial is exact (n far below k), the sample rms is decided by whether or not one rare
@@ -259,7 +262,8 @@ fn hll_config(ctx: &mut Ctx, case: &Json, stats: &mut Vec<Json>) {
     for (ci, &n) in cps.iter().enumerate() {
         let nf = n as f64;
         // coupon regime (list/set): essentially exact counting; array regime: HIP / composite
-        let sparse = nf < k / 8.0 * 0.75;
+        // (below lg_k 8 there is no coupon set: the 8-entry list is promoted straight to the register array)
+        let sparse = if lg_k < 8 { nf < 8.0 } else { nf < k / 8.0 * 0.75 };
         let rse_hip = if sparse { (0.409 / 8192.0f64).max(1e-4) * 4.0 } else { 0.8326 / k.sqrt() };
         let rse_non = if sparse { (0.409 / 8192.0f64).max(1e-4) * 4.0 } else { 1.039 / k.sqrt() };
         judge_cell(ctx, case, &format!("HLL lg_k={} {} streamed", lg_k, tname(t)), n, &acc_stream[ci], rse_hip, BIAS_MAT, false, stats);
@@ -424,7 +428,7 @@ pub fn run(ctx: &mut Ctx) {
              streamed sketch (a third of the trials through serialize/deserialize), on the union of 2-4 overlapping part \
              sketches (HLL composite / CPC ICON estimators) and, for theta, on compact and deserialized forms. Every \
              observation: bounds nested, finite, empty <=> n = 0, exact-mode theta == n. Every cell (configuration, \
-             path, n): |mean rel. error| <= 0.15 RSE + 6 sd/sqrt(T); rms <= 1.25 RSE (1 + 6/sqrt(2T)); coverage of the \
+             path, n): |mean rel. error| <= 0.08 RSE (ICON 0.15) + 6 max(sd, RSE)/sqrt(T); rms <= 1.25 RSE (1 + 6/sqrt(2T)); coverage of the \
              1/2/3-sigma intervals >= nominal - (0.04, 0.025, 0.006) by an exact binomial tail test at 1e-9. \
              distinct = configurations; non-trivial = all"
                 .into(),
